@@ -13,6 +13,11 @@
  *   audio file <path> <start_sample> <n_samples> | audio noise <seed> <n_samples> <amplitude>
  *   probe <frame>                    (ask decoder_hyp() for a partial result after that frame; -1 = after the last frame,
  *                                     before the search is finished: result queries must not change the final result)
+ *   pre file <path> <start_sample> <n_samples> | pre noise <seed> <n_samples> <amplitude> | pre empty
+ *                                    (history family: an EARLIER utterance decoded on the same decoder and the same search object,
+ *                                     after the grammar was set and before the judged utterance, through the public calls
+ *                                     decoder_start_utt / decoder_process_int16 / decoder_end_utt / decoder_hyp; `empty` = start_utt
+ *                                     directly followed by end_utt; up to MAXPRE, in the order given)
  *   run
  * Output per case: dump lines, closed by "end <id>".  Flushes after every line group. */
 #include "common.h"
@@ -41,7 +46,12 @@ static size_t naudio;
 static char caseid[64];
 #define MAXPROBE 8
 static int probes[MAXPROBE], nprobe;
-static int detail_frame = -99;   /* `detail <t>`: also print the full state behind the fingerprint of frame t (YD lines) */
+static int detail_frame = -99;
+/* earlier utterances on the same search object (history family) */
+#define MAXPRE 4
+typedef struct { int kind; char path[512]; long start, n; uint64_t seed; int amp; } pre_t;   /* kind 0 file, 1 noise, 2 empty */
+static pre_t pre[MAXPRE];
+static int npre;   /* `detail <t>`: also print the full state behind the fingerprint of frame t (YD lines) */
 
 static void probe_hyp(int t)
 {
@@ -221,6 +231,59 @@ static void dump_Y(fsg_search_t *fsgs, int t, int from, int nci)
     }
 }
 
+/* number of pnodes of the current lextree whose HMM is not in the state hmm_clear() leaves (every score WORST_SCORE, entry
+ * back-pointer -1, frame stamp -1): what fsg_search_start assumes of every HMM it does not enter */
+static int count_dirty(void)
+{
+    int i, k, dirty = 0;
+    for (i = 0; i < npn; i++) {
+        hmm_t *h = &pn[i]->hmm;
+        int bad = hmm_in_score(h) != WORST_SCORE || hmm_out_score(h) != WORST_SCORE || hmm_frame(h) != -1
+                  || hmm_in_history(h) != -1;
+        for (k = 1; k < hmm_n_emit_state(h); k++) if (hmm_score(h, k) != WORST_SCORE) bad = 1;
+        dirty += bad;
+    }
+    return dirty;
+}
+
+/* one earlier utterance, through the public interface; prints
+ *   PRE <index> <frames searched> <score|none> <hyp|-> <pnodes left not cleared> <active lists left non-empty 0/1> */
+static void run_pre(int idx)
+{
+    pre_t *q = &pre[idx];
+    int16 *buf = NULL;
+    long n = 0, i;
+    int32 sc = 0x7fffffff;
+    const char *hyp;
+    char *h, *p;
+    fsg_search_t *fsgs = (fsg_search_t *)d->search;
+    if (q->kind == 0) {
+        FILE *f = fopen(q->path, "rb");
+        buf = (int16 *)calloc((size_t)q->n + 1, sizeof(int16));
+        if (f) { fseek(f, q->start * 2, SEEK_SET); n = (long)fread(buf, 2, (size_t)q->n, f); fclose(f); }
+    } else if (q->kind == 1) {
+        uint64_t seed = q->seed;
+        buf = (int16 *)calloc((size_t)q->n + 1, sizeof(int16));
+        for (i = 0; i < q->n; i++) {
+            int64_t s = 0; int k;
+            for (k = 0; k < 4; k++) s += (int64_t)(vf_rand(&seed) % (uint64_t)(2 * q->amp + 1)) - q->amp;
+            buf[i] = (int16)(s / 2);
+        }
+        n = q->n;
+    }
+    if (decoder_start_utt(d) < 0) { printf("error pre-start-utt\n"); free(buf); return; }
+    if (q->kind != 2) decoder_process_int16(d, buf, (size_t)n, /*no_search*/ 0, /*full_utt*/ 1);
+    if (decoder_end_utt(d) < 0) printf("error pre-end-utt\n");
+    hyp = decoder_hyp(d, &sc);
+    h = strdup(hyp ? hyp : "");
+    for (p = h; *p; p++) if (*p == ' ') *p = '_';
+    printf("PRE %d %d ", idx, (int)fsgs->frame);
+    if (sc != 0x7fffffff) printf("%d", sc); else printf("none");
+    printf(" %s %d %d\n", *h ? h : "-", count_dirty(), (fsgs->pnode_active || fsgs->pnode_active_next) ? 1 : 0);
+    free(h);
+    free(buf);
+}
+
 static void run_case(void)
 {
     char *buf;
@@ -328,6 +391,10 @@ static void run_case(void)
     printf("\n");
     fflush(stdout);
 
+    /* history family: earlier utterances on this decoder and this search object */
+    for (i = 0; i < npre; i++) run_pre(i);
+    fflush(stdout);
+
     /* decode: buffer the features, then step the search by hand, recording the senone scores */
     if (decoder_start_utt(d) < 0) { die("start-utt"); goto done; }
     dump_Y(fsgs, -1, 0, nci);
@@ -348,6 +415,7 @@ static void run_case(void)
     }
     for (k = 0; k < nprobe; k++) if (probes[k] == -1) { probe_hyp(-1); break; }
     search_module_finish(d->search);
+    printf("PZ %d %d\n", count_dirty(), (fsgs->pnode_active || fsgs->pnode_active_next) ? 1 : 0);
     /* decoder_hyp() returns NULL for a result that consists of fillers only but still sets the score:
      * a sentinel tells whether find_exit produced one */
     score = 0x7fffffff;
@@ -403,7 +471,7 @@ int main(int argc, char **argv)
         if (n == 0) continue;
         if (!strcmp(w[0], "case") && n >= 2) {
             strncpy(caseid, w[1], sizeof(caseid) - 1);
-            ntr = 0; nstate = 0; naudio = 0; nprobe = 0; detail_frame = -99;
+            ntr = 0; nstate = 0; naudio = 0; nprobe = 0; detail_frame = -99; npre = 0;
             printf("case %s\n", caseid);
         } else if (!strcmp(w[0], "cfg") && n == 3) {
             if (config_set_str(d->config, w[1], w[2]) == NULL) printf("error cfg %s\n", w[1]);
@@ -419,6 +487,13 @@ int main(int argc, char **argv)
             if (load_audio_file(w[2], atol(w[3]), atol(w[4])) < 0) printf("error audio\n");
         } else if (!strcmp(w[0], "audio") && n == 5 && !strcmp(w[1], "noise")) {
             make_noise((uint64_t)strtoull(w[2], NULL, 10), atol(w[3]), atoi(w[4]));
+        } else if (!strcmp(w[0], "pre") && n >= 2 && npre < MAXPRE) {
+            pre_t *q = &pre[npre];
+            memset(q, 0, sizeof(*q));
+            if (!strcmp(w[1], "file") && n == 5) { q->kind = 0; strncpy(q->path, w[2], sizeof(q->path) - 1); q->start = atol(w[3]); q->n = atol(w[4]); npre++; }
+            else if (!strcmp(w[1], "noise") && n == 5) { q->kind = 1; q->seed = (uint64_t)strtoull(w[2], NULL, 10); q->n = atol(w[3]); q->amp = atoi(w[4]); npre++; }
+            else if (!strcmp(w[1], "empty") && n == 2) { q->kind = 2; npre++; }
+            else printf("error bad-pre\n");
         } else if (!strcmp(w[0], "detail") && n == 2) {
             detail_frame = atoi(w[1]);
         } else if (!strcmp(w[0], "probe") && n == 2) {
